@@ -365,6 +365,7 @@ static bool iscan_reseek_layer_roots(iscan_context* ctx) {
             ctx->stack_at(level + 1).layer_root = child;
         }
         if (!again) { return true; }
+        YK_WAIT(YK_W_RETRY, nullptr);
     }
 }
 
